@@ -61,6 +61,8 @@ c["false_alarm_corpus"] = {"entries": len(fa), "silent": sum(1 for s in fa if s.
 c["cross_reference"] = {"go_vet_copylocks_lostcancel_atomic_lines": int(vet), "note": "generic analyzers, recorded only; they decide nothing"}
 json.dump(e, open(ev, "w"), indent=1); open(ev, "a").write("\n")
 PY
+# the sweeps' private build cache (see sweep.sh) is not kept
+rm -rf "${GODICHECK_SWEEP_CACHE:-/tmp/godicheck-sweep-cache}"
 n=$(echo "$sens" | python3 -c 'import json,sys; s=json.load(sys.stdin); print(str(sum(1 for x in s if x.get("detected")))+"/"+str(len(s)))')
 echo "sensitivity corpus for $prop: detected $n"
 echo "false-alarm corpus for $prop: $(echo "$fa" | python3 -c 'import json,sys; s=json.load(sys.stdin); print(str(sum(1 for x in s if x.get("silent")))+"/"+str(len(s))+" silent")')"
